@@ -93,7 +93,7 @@ Record runner := {
   warnings : nat;
   infos : nat;
   shown : list diag;        (* diagnostics written to the terminal (r.message not suppressed) *)
-  json_lint : list diag;    (* r.lintErrors, flattened *)
+  json_lint : list diag;    (* r.lintErrors, flattened: each error with the severity it is counted with *)
   json_parse : nat          (* len(r.parseErrors) *)
 }.
 
@@ -133,7 +133,7 @@ Definition step (c : cfg) (r : runner) (d : diag) : runner :=
   let sev := effective c d in
   let r1 := if json c && negb (sev_eqb sev SevIgnore)
             then {| errors := errors r; warnings := warnings r; infos := infos r; shown := shown r;
-                    json_lint := json_lint r ++ [d]; json_parse := json_parse r |}
+                    json_lint := json_lint r ++ [(fst d, sev)]; json_parse := json_parse r |}
             else r in
   print_linter_error c sev d r1.
 
@@ -184,6 +184,10 @@ Definition run_lint (c : cfg) (x : lint_input) : outcome :=
 (* ------------------------------------------------------------------ specification vocabulary *)
 Definition count (c : cfg) (s : severity) (ds : list diag) : nat :=
   List.length (filter (fun d => sev_eqb (effective c d) s) ds).
+
+(* the entries of the -json document: the non-ignored diagnostics, each with its effective severity *)
+Definition listed (c : cfg) (ds : list diag) : list diag :=
+  map (fun d => (fst d, effective c d)) (filter (fun d => negb (sev_eqb (effective c d) SevIgnore)) ds).
 
 (* what the verbosity lets through to the terminal *)
 Definition visible (v : nat) (s : severity) : bool :=
